@@ -117,3 +117,27 @@ contract(SS + 'SnepServer.process_snep_request', 'C07',
          requires=['len(request_data) - 6 >= be32(request_data[2:6])'],
          ensures=[('O-answer', 'len(result) >= 6 and result[0] == 0x10')],
          raises={})
+
+# "can not hang the stack": enqueue() of a data link connection runs in the link controller's thread; whatever PDU
+# the peer addresses to the connection (any type, any sequence numbers) in whatever state it is, that thread
+# must not reach a wait() without timeout - nobody else could ever wake it
+from .c10_miu import tco, DLC_EXTRA, state   # noqa
+from .c09_terminate import no_untimed_wait   # noqa
+PP = 'nfc.llcp.pdu:'
+INPDU = lambda: OneOf(   # noqa
+    Obj(PP + 'UnnumberedInformation', _partial=False, ptype=3, dsap=SAP(), ssap=SAP(), data=Bytes(0, None)),
+    Obj(PP + 'Symmetry', _partial=False, ptype=0, dsap=0, ssap=0),
+    Obj(PP + 'Connect', _partial=False, ptype=4, dsap=SAP(), ssap=SAP(), miu=Int(128, 2175), rw=Int(0, 15), sn=None),
+    Obj(PP + 'Disconnect', _partial=False, ptype=5, dsap=SAP(), ssap=SAP()),
+    Obj(PP + 'ConnectionComplete', _partial=False, ptype=6, dsap=SAP(), ssap=SAP(), miu=Int(128, 2175), rw=Int(0, 15)),
+    Obj(PP + 'DisconnectedMode', _partial=False, ptype=7, dsap=SAP(), ssap=SAP(), reason=Byte()),
+    Obj(PP + 'FrameReject', _partial=False, ptype=8, dsap=SAP(), ssap=SAP(), rej_flags=Int(0, 15), rej_ptype=Int(0, 15),
+        ns=SEQ(), nr=SEQ(), vs=SEQ(), vr=SEQ(), vsa=SEQ(), vra=SEQ()),
+    Obj(PP + 'Information', _partial=False, ptype=12, dsap=SAP(), ssap=SAP(), ns=SEQ(), nr=SEQ(), data=Bytes(0, None)),
+    Obj(PP + 'ReceiveReady', _partial=False, ptype=13, dsap=SAP(), ssap=SAP(), nr=SEQ()),
+    Obj(PP + 'ReceiveNotReady', _partial=False, ptype=14, dsap=SAP(), ssap=SAP(), nr=SEQ()),
+    Obj(PP + 'ServiceNameLookup', _partial=False, ptype=9, dsap=1, ssap=1, sdreq=Fixed([]), sdres=Fixed([])))
+contract('nfc.llcp.tco:DataLinkConnection.enqueue', 'C07',
+         dict(self=tco('DataLinkConnection', send_queue=ListOf(Any(), kind='deque'), **DLC_EXTRA), rcvd_pdu=INPDU()),
+         name='C07/dlc.enqueue.never-blocks', hooks={'on_wait': no_untimed_wait},
+         ensures=[('O-returns', 'True')], raises={}, native=False)
